@@ -74,13 +74,26 @@ def run_impl(prog):
     IDX = {l: i for i, l in enumerate(LABELS)}
     d = DirectedAcyclicGraph(exposure=LABELS[0], outcome=LABELS[1])
     trace, problems = [], []
+    res_kinds = set()
     for o in prog:
         before_n, before_e = list(d.dag.nodes), list(d.dag.edges)
         try:
             if o[0] == 'arrow':
                 d.add_arrow(LABELS[o[1]], LABELS[o[2]])
             elif o[0] == 'arrows':
-                d.add_arrows([(LABELS[u], LABELS[v]) for u, v in o[1]])
+                # `pairs` is any iterable of (source, endpoint): a list, a tuple, or a one-shot iterable (generator, zip, iterator)
+                pairs = [(LABELS[u], LABELS[v]) for u, v in o[1]]
+                kind = (len(pairs) + 2 * len(prog) + sum(u + v for u, v in o[1])) % 6
+                if kind == 1:
+                    pairs = tuple(pairs)
+                elif kind == 2:
+                    pairs = (pq for pq in pairs)
+                elif kind == 3:
+                    pairs = zip([pq[0] for pq in pairs], [pq[1] for pq in pairs])
+                elif kind == 4:
+                    pairs = iter(pairs)
+                res_kinds.add(['list', 'tuple', 'generator', 'zip', 'iterator', 'list'][kind])
+                d.add_arrows(pairs)
             else:
                 net = nx.DiGraph()
                 net.add_nodes_from(LABELS[n] for n in o[1])
@@ -102,7 +115,7 @@ def run_impl(prog):
                 d.calculate_adjustment_sets()
             except Exception:   # noqa  (exposure / outcome may not be in the diagram yet)
                 pass
-    res = {'trace': trace, 'problems': problems, 'integer_labels': LABELS[0] == 8}
+    res = {'trace': trace, 'problems': problems, 'integer_labels': LABELS[0] == 8, 'pair_containers': sorted(res_kinds)}
     try:
         d.calculate_adjustment_sets()
         if len(d.dag.edges) <= 5 and (len(prog) + len(d.dag.edges) + len(d.dag.nodes)) % 4 == 0:
@@ -228,6 +241,8 @@ def compare(ctx, cases, impl, res, fails):
         payload = {'kind': kind, 'prog': [list(o) for o in prog], 'shown': show_prog(prog), 'impl': {k: r[k] for k in ('sets', 'nodes', 'edges')}}
         ctx.count('kind:' + kind)
         ctx.count('nodes:%d' % nn)
+        for kc in r.get('pair_containers', []):
+            ctx.count('add_arrows given a ' + kc)
         ctx.count('calls:%s' % ('1' if len(prog) == 1 else '2-4' if len(prog) <= 4 else '5+'))
         rejected = sum(1 for t in r['trace'] if t[0] is False)
         ctx.count('programs-with-rejected-call' if rejected else 'programs-all-accepted')
